@@ -175,7 +175,10 @@ def gen(rng, tier):
            'skip': rng.choice([True, True, False]),
            'preregister': rng.random() < 0.4,
            'use_before_import': rng.random() < 0.3}
-  return {'parses': parses, 'dyn': dyn, 'use': rng.random() < 0.7}
+  return {'parses': parses, 'dyn': dyn, 'use': rng.random() < 0.7,
+          # texts parsed with skip_unknown=True spell the late configurable by
+          # its complete name (before and after it gets registered)
+          'full_late': rng.random() < 0.3}
 
 
 def _skip_value(skip):
@@ -355,7 +358,11 @@ def run(case):
     stats['kept'] += kept
     if dropped and kept:
       stats['mixed_parses'] += 1
-    text = '\n'.join(l for s in ps['stmts'] for l in cfgtext.stmt_lines(s, None))
+    spelled = ps['stmts']
+    if case.get('full_late') and skip is True:
+      spelled = [dict(s, sel='mm.' + LATE) if s.get('sel') == LATE else s
+                 for s in ps['stmts']]
+    text = '\n'.join(l for s in spelled for l in cfgtext.stmt_lines(s, None))
     exc = None
     try:
       if ps['how'] == 'list':
